@@ -1299,7 +1299,7 @@ pub fn minimiser_spaces(ctx: &mut Ctx, which: u32) {
                 }
             });
         }
-        let mut clean = long_input(330_000, 17);
+        let mut clean = long_input(800_000, 17);
         clean.iter_mut().for_each(|b| {
             if !b"ACGT".contains(b) {
                 *b = b'G'
@@ -1309,7 +1309,8 @@ pub fn minimiser_spaces(ctx: &mut Ctx, which: u32) {
             for m in [11usize, 24, 25] {
                 let w = slots + m - 1;
                 if w <= wmax && sh.mine() {
-                    let len = if slots > 1000 { w + 70_000 } else { w + 3000 };
+                    // long enough for the minimiser to leave the window several times (each time the whole window is rescanned)
+                    let len = if slots > 1000 { w + 600_000 } else { w + 3000 };
                     run(ctx, "wide-window", &clean[..len], w, m);
                     n_long += 1;
                     ctx.rep.nontrivial += 1;
